@@ -87,8 +87,16 @@ def count_full_scenario(r, it, modes=(3,)):
         return None
     sim.fate_fn = fate
     n = r.pick([200, 255, 300, 400, 600])
-    ln = r.pick([1, 2, 2, 3])
+    # 2-byte payloads: with the 9-byte datagram header (parent leads above 127) a frame still fills by COUNT (10 + 127 * 11 <= 1472).
+    # Packets are identified by their payload digest in the oracles, so the payloads of one case are made pairwise distinct by
+    # skipping payload seeds whose two bytes were already used (false alarm #29: equal tiny payloads were matched to the wrong packet)
+    ln = 2
+    used = set(p.digest for p in sim.sent["A"])
+    from gen_hc import gen_payload, digest
     for j in range(n):
+        while digest(gen_payload(sim.next_seed, ln)) in used:
+            sim.next_seed += 1
+        used.add(digest(gen_payload(sim.next_seed, ln)))
         sim.send("A", r.below(3), r.pick(list(modes)), ln)
     sim.run(r.range(60, 120), r.pick([5_000_000, 20_000_000]), ok, ok, probe_every=1)
     sim.fate_fn = None
